@@ -3,6 +3,7 @@ import Wx.Job.C07w
 import Wx.Job.C10c
 import Wx.Job.C06
 import Wx.Job.ApiThm
+import Wx.Job.C07t
 /-! # C07 — Every control completes and every ticket resolves
 
 > Every control sent to a live job is executed exactly once (or skipped as documented) and its ticket resolves no later
@@ -65,5 +66,20 @@ theorem violated_before_repairs :
     (∃ y ∈ runOps (initial {} [.ignores]) [.send .high [.nextEnding] true, .send .normal [.delete] true, .settle],
         ∃ wt ∈ y.st.waiters, y.st.isRaised 0 = true ∧ wt.resolved = false) :=
   ⟨c07_noLost_fails_today, c07_tickets_fails_today⟩
+
+/-- **no later than the grace period expiring**: in every reachable state of a live job, each issued flag is still queued,
+    already raised, waiting for the process to end (wait-for-end), or held by a grace timer whose deadline has NOT passed.
+    So the ticket of a graceful stop / restart that has been taken from the queue is resolved whenever the clock shows more
+    than its deadline; and when the process exits earlier the wait branch raises it (`no_flag_lost`, repairs F1/F2). -/
+theorem graceful_ticket_by_deadline (behs : List Beh) (ops : List Op) (hok : ∀ o ∈ ops, OpOk o) :
+    ∀ y ∈ runOps { st := { cfg := Fixes.all, behs := behs, hookSet := true, parked := true } } ops,
+      y.st.alive = true → ∀ f ∈ y.st.issued,
+        f ∈ y.st.pending ∨ y.st.isRaised f = true ∨ f ∈ y.st.onEnd ∨
+        ∃ tm, y.st.timer = some tm ∧ tm.done = f ∧ y.st.now ≤ tm.until_ := c07_ticket_by_deadline behs ops hok
+
+/-- an armed grace timer never expires unnoticed while the job task is alive -/
+theorem grace_timer_never_overdue (behs : List Beh) (ops : List Op) :
+    ∀ y ∈ runOps { st := { cfg := Fixes.all, behs := behs, hookSet := true, parked := true } } ops,
+      y.st.alive = true → ∀ tm, y.st.timer = some tm → y.st.now ≤ tm.until_ := c07_timer_fresh behs ops
 
 end Props.C07
